@@ -494,6 +494,28 @@ def _lib_verdict(case):
     return 'other', repr(res)[:100]
 
 
+class _Hang(BaseException):
+    pass
+
+
+def _guarded_verdict(case, seconds=60):
+    """_lib_verdict with a generous alarm: a verifier call that does not return (seen with a scratch mutation that let a
+    negative s reach the DER encoder) must not eat the whole shard; it is reported as inconclusive, never as a verdict."""
+    import signal
+
+    def on_alarm(signum, frame):
+        raise _Hang()
+    old = signal.signal(signal.SIGALRM, on_alarm)
+    signal.alarm(seconds)
+    try:
+        return _lib_verdict(case)
+    except _Hang:
+        return 'hang', 'no result within %d s' % seconds
+    finally:
+        signal.alarm(0)
+        signal.signal(signal.SIGALRM, old)
+
+
 def chk_triple(case, col):
     cls = case['cls']
     sp, pp = case['sig'], case['pub']
@@ -507,7 +529,10 @@ def chk_triple(case, col):
         ref_ok = False
     else:
         ref_ok = R.ecdsa_verify(z, rs[0], rs[1], pt)
-    verdict, detail = _lib_verdict(case)
+    verdict, detail = _guarded_verdict(case)
+    if verdict == 'hang':
+        col.note_inconclusive('verifier call did not return for class %s (%s): %s' % (cls, detail, str(case)[:300]))
+        return
     if verdict == 'other':
         col.violation(None, 'verifier returned neither True nor False for class %s' % cls, case, detail, ref_ok)
         return
